@@ -21,7 +21,7 @@ SELECTABLE = ("grid1", "grid2", "grid3", "oned", "rule", "periodic")
 QUERYABLE = ("grid1", "grid2", "grid3", "oned", "rule", "atom", "mol", "uniform", "tensor", "local", "angular", "shell")
 CENTER_KINDS = ("random", "onpoint", "far", "centroid", "badshape")
 RADIUS_KINDS = ("zero", "tiny", "q10", "q50", "q90", "huge", "inf", "neg", "nan", "exact")
-INDEX_KINDS = ("int", "negint", "npint", "npint32", "slice", "slice_step", "intarray", "mask", "list")
+INDEX_KINDS = ("int", "negint", "npint", "npint32", "slice", "slice_step", "intarray", "mask", "list", "uintarray", "negarray", "boollist", "lastint")
 SET_KINDS = ("translate", "scale", "permute", "fresh", "badshape", "same")
 
 
@@ -250,6 +250,14 @@ def _center_for(o, ckind, seed):
         c = np.asarray(c, dtype=float).reshape(())
         if r.rand() < 0.5:
             c = float(c)
+    else:
+        # the same centre as ndarray / list / tuple (the library documents "float or np.array", np.asarray takes all)
+        u = r.rand()
+        c = np.asarray(c, dtype=float)
+        if u < 0.2:
+            c = [float(v) for v in c]
+        elif u < 0.3:
+            c = tuple(float(v) for v in c)
     return c, True
 
 
@@ -284,7 +292,14 @@ def _radius_for(o, rkind, c, seed, cvalid):
     i = min(len(d) - 1, int(q * len(d)))
     lo = d[i]
     hi = d[i + 1] if i + 1 < len(d) else d[i] + 1.0
-    return float(0.5 * (lo + hi)), True
+    rad = float(0.5 * (lo + hi))
+    # the same radius as Python float / NumPy float64 / NumPy float32 (the float32 *value* is what the oracle uses)
+    flav = (seed // 11) % 5
+    if flav == 3:
+        return np.float64(rad), True
+    if flav == 4 and hi - lo > 1e-4 * max(1.0, rad):
+        return np.float32(rad), True
+    return rad, True
 
 
 # ---- the step oracle ---------------------------------------------------------------------------------
@@ -516,6 +531,20 @@ def _make_index(ikind, n, seed):
         k = int(r.randint(1, min(n, 5) + 1))
         a = [int(x) for x in r.randint(0, n, size=k)]
         return a, np.array(a)
+    if ikind == "uintarray":
+        k = int(r.randint(1, min(n, 6) + 1))
+        a = r.randint(0, min(n, 255), size=k).astype(np.uint8)
+        return a, a.astype(int)
+    if ikind == "negarray":
+        k = int(r.randint(1, min(n, 6) + 1))
+        a = -1 - r.randint(0, n, size=k)
+        return a, n + a
+    if ikind == "boollist":
+        m = r.rand(n) < 0.5
+        m[i] = True
+        return [bool(v) for v in m], np.nonzero(m)[0]
+    if ikind == "lastint":
+        return (-1 if seed % 2 else n - 1), np.array([n - 1])
     if ikind == "mask":
         m = r.rand(n) < 0.5
         m[i] = True
